@@ -37,9 +37,56 @@ _reg("C02", "xsim.manager.props", "C02", "exploration", {"quick": 6400, "thoroug
      ("pure", "compiled"), COMPONENTS_MANAGER,
      "one case = seeded world + history; every propagating op's container-write/action trace is attributed to tasks; "
      "distinct = distinct case digest; non-trivial = at least one update that triggered >= 1 task")
+_reg("C03", "xsim.manager.props", "C03", "exploration", {"quick": 4800, "thorough": 150000}, {"quick": 150, "thorough": 600},
+     ("pure", "compiled"), COMPONENTS_MANAGER,
+     "one case = seeded world + history biased to register/unregister/replace/load over nested targets; after every op the "
+     "subject is compared with a freshly built manager (index supports, verify, queries, reaction to the next op); "
+     "distinct = distinct case digest; non-trivial = at least one removal or replacement of a registered task happened")
 
 
 def driver_for(prop):
     import importlib
     r = REG[prop]
     return getattr(importlib.import_module(r["module"]), r["cls"])
+
+
+# ---------------------------------------------------------------------------
+# texts for MANIFEST.json (tools/mkmanifest.py)
+# ---------------------------------------------------------------------------
+NOT_APPLICABLE = {
+    "C04": "pure function of (expression tree, operand values): no schedule, clock, fault or history for a simulator to own; "
+           "input generation in simulator vocabulary would be a change of technique",
+    "C05": "pure structural function of an expression tree (enumeration node class x operand slot): nothing to schedule, interleave or fail",
+    "C06": "pure relation over pairs of access paths (==/hash agreement); the hash seed changes hash values, not whether == and hash agree",
+    "C16": "linear-algebra identities of pure numeric functions (SVD.lstsq, weight/rescale maps, finite-difference Jacobian): "
+           "no nondeterminism or fault to inject",
+    "C19": "agreement of two pure evaluators over a grammar: differential input generation, no schedule/fault/history dimension",
+}
+
+_TB = ("trusted: the reference model in xsim/ (independent of xdeps), CPython 3.12 + numpy of /venv, the scratch build made from "
+       "/repo's working tree; schedules are reached through PYTHONHASHSEED x name salt x build only; seeded sampling, not proof")
+
+MANIFEST_TEXT = {
+    "C01": dict(
+        text="seeded search over assignment histories (value / expression / in-place / removal / re-definition / whole-container, "
+             "function and linear-knob tasks, nested dict/list/attribute containers, consumer-before-producer, deep chains) executed "
+             "on the real Manager in both builds under many hash-seed x name-salt schedules; after EVERY op the complete container "
+             "contents are compared with a pull-evaluation reference model. A for-all over histories and schedules can only be "
+             "sampled; the level is exploration with the KF-1 known finding reported, not hidden",
+        design_ref="DESIGN.md 5 (C01), 4.1, 6", note=_TB,
+        technique="deterministic simulation: seeded histories x hash-order schedules vs pull-model oracle"),
+    "C02": dict(
+        text="the ordered trace of container writes/reads and action calls of every single update (logging containers) is attributed "
+             "to task executions and checked against the model's trigger set: exactly once each, producers first, nothing else, "
+             "initial write first; cyclic public graphs: at most once and termination under a CPU stall guard. Schedules come from "
+             "hash seed x name salt x build; evidence counts distinct (graph, order) pairs",
+        design_ref="DESIGN.md 5 (C02)", note=_TB,
+        technique="deterministic simulation: per-update execution traces under seeded schedules"),
+    "C03": dict(
+        text="histories biased to register / unregister / replace / load over nested targets; after every op the subject manager is "
+             "compared with a freshly built manager holding only the surviving definitions: supports of the four indices (also vs a "
+             "derivation from the tasks' public attributes), verify(), find_deps/_find_dependant_targets/_expr/_tasks, and the "
+             "reaction (exception, executed task set, contents) to the next op; refresh()/clone() at random points",
+        design_ref="DESIGN.md 5 (C03)", note=_TB,
+        technique="deterministic simulation: history refinement against a fresh twin manager"),
+}
